@@ -11,7 +11,7 @@ from . import ppreplay
 
 TMP = WORK + b'/t.tmp'
 DECOYS = [(WORK + b'/a.tmp', b'decoy1'), (WORK + b'/a.txt.bak', b'decoy2'), (WORK + b'/a', b'decoy3'), (b'/w/a.txt', b'decoy4'),
-          (WORK + b'/t.tmp.txtpp', b'decoy5\n')]
+          (WORK + b'/t.tmp.txtpp', b'decoy5\n'), (WORK + b'/t.txtpp.md', b'decoy6\n'), (WORK + b'/t.txtpp', b'decoy7\n')]
 ANYBYTE = list(range(256))
 
 
@@ -62,6 +62,8 @@ def allowed_paths(ctx, mode, source, se):
         args = [a for a, _ in res.temps]
     for a in args:
         if all(isinstance(b, int) for b in a):
+            if specnames.is_txtpp_name(ctx, tuple(a)):
+                continue                      # a txtpp source name is never a temp target (refused by build, never deleted by clean)
             allowed.add(printable(WORK + b'/' + bytes(a)))
     return allowed
 
@@ -120,11 +122,12 @@ def h_verify(m, ctx, nlines, menu_name, fixed=None, pre_out_len=None, trailing=T
 
 # ----------------------------------------------------------------------------- C07 clean
 
-def h_clean(m, ctx, nlines, menu_name, fixed=None, history='build-clean', le_choices=(b'\n',)):
-    source, desc, se, _, _, data = world(m, ctx, nlines, menu_name, fixed, None, None, le_choices=le_choices)
-    data = dict(data, history=history)
+def h_clean(m, ctx, nlines, menu_name, fixed=None, history='build-clean', le_choices=(b'\n',), pre_temp_len=None):
+    source, desc, se, _, hand_written, data = world(m, ctx, nlines, menu_name, fixed, None, pre_temp_len, le_choices=le_choices)
+    data = dict(data, history=history, extra_files=[(p.decode(), list(c)) for p, c in DECOYS])
     steps = {'build-clean': ['Build', 'Clean'], 'clean': ['Clean'], 'build-clean-clean': ['Build', 'Clean', 'Clean']}[history]
-    pre_out = pre_temp = None
+    pre_out = None
+    pre_temp = hand_written          # a file the user wrote at t.tmp (matters when no valid temp directive names it)
     build_ok = None
     ncmds_after_build = 0
     for si, mode in enumerate(steps):
@@ -146,10 +149,15 @@ def h_clean(m, ctx, nlines, menu_name, fixed=None, history='build-clean', le_cho
                 # after a successful build (or no build): every generated file is gone
                 if env.read_file(OUT) is not None:
                     violation(ctx, 'clean left the output file behind', d)
-                if env.read_file(TMP) is not None:
+                if env.read_file(TMP) is not None and (hand_written is None or printable(TMP) in allowed_paths(ctx, 'Clean', source, se)):
                     # a temp directive that was reached by the build
                     violation(ctx, 'clean left a temp file behind', d)
             allowed_c = allowed_paths(ctx, 'Clean', source, se)
+            if hand_written is not None and printable(TMP) not in allowed_c and printable(TMP) not in allowed_paths(ctx, 'Build', source, se):
+                cur = env.read_file(TMP)
+                if cur is None:
+                    violation(ctx, 'clean deleted t.tmp, which no valid temp directive of the source names', d)
+                check_bytes_equal(ctx, cur, hand_written, 'clean changed t.tmp, which no valid temp directive of the source names', d)
             for p, c in DECOYS + [(SRC, None), (WORK + b'/f', None)]:
                 if printable(p) in allowed_c:
                     continue
